@@ -36,7 +36,7 @@ BOUND = {
     "thorough": "same matrix (finite, taken in full) plus every boolean switch on/off across all carriers",
 }
 MIN_NONTRIVIAL = {"quick": 800, "thorough": 1200}
-CARRIERS = ["yaml", "json", "pyproject", "config-yaml", "config-json"]
+CARRIERS = ["yaml", "json", "pyproject", "config-yaml", "config-json", "group-config-yaml"]
 SWEEP = [1, 2, 3, 4, 5, 6, 8, 13, 50, 1000]
 # thresholds whose documented violating example is, by the documentation's own numbers, sensitive
 # to the option somewhere in the sweep (so "no effect at all" contradicts the documentation)
@@ -107,6 +107,10 @@ def _place(files: dict, cfg: dict, carrier: str):
     if carrier == "config-yaml":
         f["custom-config.yaml"] = yaml_dump(cfg)
         return f, ["--config", "custom-config.yaml"]
+    if carrier == "group-config-yaml":
+        # the documented global form: thailint --config FILE <command> ...
+        f["custom-config.yaml"] = yaml_dump(cfg)
+        return f, ["@@GROUP", "--config", "custom-config.yaml"]
     if carrier == "config-json":
         f["custom-config.json"] = json.dumps(cfg, indent=1)
         return f, ["--config", "custom-config.json"]
@@ -137,7 +141,10 @@ def _linter_setup(name: str):
 def _run(cmd, prefix, files, cfg, carrier, extra_argv=(), root_keep=None):
     fs, argv = _place(files, cfg, carrier) if cfg is not None else (dict(files), [])
     root = project(fs)
-    r = obs.cli_json([cmd, *argv, *extra_argv, "."], root)
+    if argv and argv[0] == "@@GROUP":
+        r = obs.cli_json([*argv[1:], cmd, *extra_argv, "."], root)
+    else:
+        r = obs.cli_json([cmd, *argv, *extra_argv, "."], root)
     vs = None
     if r["violations"] is not None:
         vs = obs.norm([v for v in r["violations"] if v["rule_id"].startswith(prefix)], root, root)
@@ -420,7 +427,7 @@ def _run_item(item) -> Acc:
                 acc.nt(("invalid", carrier, bad))
                 if r["exit_code"] != 2:
                     acc.fail({"option": "invalid-value", "carrier": carrier, "mode": f"exit{r['exit_code']}"}, {"config": cfg, "carrier": carrier, "cmd": cmd, "files": files}, {"exit": 2}, {"exit": r["exit_code"]}, "documented-invalid value (non-positive limit) must end the run with exit 2")
-        garbage = {"yaml": (".thailint.yaml", "nesting: [unclosed\n  x: {"), "json": (".thailint.json", '{"nesting": '), "pyproject": ("pyproject.toml", "[tool.thailint\nnesting = {"), "config-yaml": ("custom-config.yaml", "a: [b\n c: {"), "config-json": ("custom-config.json", '{"a": ')}
+        garbage = {"yaml": (".thailint.yaml", "nesting: [unclosed\n  x: {"), "json": (".thailint.json", '{"nesting": '), "pyproject": ("pyproject.toml", "[tool.thailint\nnesting = {"), "config-yaml": ("custom-config.yaml", "a: [b\n c: {"), "config-json": ("custom-config.json", '{"a": '), "group-config-yaml": ("custom-config.yaml", "a: [b\n c: {")}
         for name in load.linters():
             st = _linter_setup(name)
             if st is None:
@@ -429,8 +436,9 @@ def _run_item(item) -> Acc:
             for carrier, (fname, content) in garbage.items():
                 fs = {**files, fname: content}
                 argv = ["--config", fname] if carrier.startswith("config-") else []
+                pre = ["--config", fname] if carrier.startswith("group-") else []
                 root = project(fs)
-                r = obs.cli_inproc([cmd, *argv, "--format", "json", "."], root)
+                r = obs.cli_inproc([*pre, cmd, *argv, "--format", "json", "."], root)
                 remove(root)
                 acc.case()
                 acc.edge()
@@ -454,7 +462,10 @@ def replay_case(case) -> list[dict]:
             fs, argv = dict(case["files"]), []
         argv = argv + list(case.get("argv", [])) if "config" in case else list(case.get("argv", []))
         root = project(fs)
-        r = obs.cli_subprocess([case["cmd"], *argv, "--format", "json", "."], root)
+        pre = []
+        if argv and argv[0] == "@@GROUP":
+            pre, argv = argv[1:3], argv[3:]
+        r = obs.cli_subprocess([*pre, case["cmd"], *argv, "--format", "json", "."], root)
         print(f"$ thailint {case['cmd']} {' '.join(argv)} --format json .   (files: {sorted(fs)})")
         for n in fs:
             if n.startswith((".thailint", "pyproject", "custom-config")):
